@@ -54,8 +54,8 @@ def case_strategy():
         'speed': st.one_of(st.sampled_from([0.0, 1.0]), st.floats(0, 30.0), st.floats(30.0, 300.0)),
         'heading': st.floats(-180, 180), 'roll': st.floats(-30, 30), 'pitch': st.floats(-30, 30),
         'T': st.sampled_from([10.0, 20.0, 30.0]),
-        'rate_hz': st.sampled_from([10, 20]),
-        'time_step': st.one_of(st.sampled_from([0.2, 1.0, 5.0, 0.35]), st.floats(0.2, 5.0)),
+        'rate_hz': st.sampled_from([10, 20, 10, 2, 4]),          # 2 and 4 Hz: rows further apart than a small time_step
+        'time_step': st.one_of(st.sampled_from([0.2, 1.0, 5.0, 0.35, 0.05]), st.floats(0.2, 5.0)),
         'with_altitude': st.booleans(),
         'gyro': model_strategy(), 'accel': model_strategy(),
         'sensors': st.lists(sensor, min_size=1, max_size=3, unique_by=lambda s: s['cls']),
@@ -244,6 +244,10 @@ def assemble_and_solve(sc, res):
             unattached += 1
             continue
         pva = interp_pose(tc.iloc[i], tc.iloc[i + 1], (tm - times[i]) / (times[i + 1] - times[i]))
+        # body rates of the interval holding the epoch (increments are always supplied here): the measurement model of
+        # NedVelocity with a lever arm needs them (repo fix fca2907: the feedforward filter used to omit them)
+        row = inc.iloc[i]
+        pva = pd.concat([pva, pd.Series(row[gen.INC_COLS[1:4]].values.astype(float) / float(row['dt']), index=['rate_x', 'rate_y', 'rate_z'])])
         for m in sc.measurements:
             r = m.compute_matrices(tm, pva, em)
             if r is not None:
@@ -269,7 +273,8 @@ def run_estimator(case, ctx):
               'step=' + ('<0.5' if case['time_step'] < 0.5 else '<2' if case['time_step'] < 2 else '>=2'),
               'sm_states' if (sc.gm.scale_misal_modelled or sc.am.scale_misal_modelled) else 'no_sm',
               'walk_states' if (sc.gm.n_noises or sc.am.n_noises) else 'no_walk',
-              'shared_epoch' if sc.shared else 'no_shared_epoch')
+              'shared_epoch' if sc.shared else 'no_shared_epoch',
+              'rows_sparser_than_step' if 1.0 / case['rate_hz'] > case['time_step'] else 'rows_denser_than_step')
     if o['unattached']:
         ctx.inconclusive['sample_node_not_on_grid'] += 1
         return
